@@ -1,5 +1,5 @@
 (* C02sim_g -- per-state simulation lemmas (M_tok state method vs S_tok), see Proofs/C02sim.v and C02simtac.v.
-   Each lemma:  R m s -> st m = X -> wk m = true -> covered m = true -> simok s (step_X m). *)
+   Each lemma:  R m s -> st m = X -> wk m = true -> plain m = true -> simok s (step_X m). *)
 From Coq Require Import NArith List Bool Arith Lia ZifyBool ZifyN.
 From Verif Require Import Sx Str.
 From Verif.Gen Require Import Entities Tokenizer.
@@ -9,24 +9,24 @@ From Verif.Proofs Require Import C02a C02dict C08 C02sim C02simtac.
 Import ListNotations.
 Local Open Scope N_scope.
 
-Lemma sim_beforeDoctypeNameState : forall m s, R m s -> st m = beforeDoctypeNameState -> wk m = true -> covered m = true -> simok s (step_beforeDoctypeNameState m).
+Lemma sim_beforeDoctypeNameState : forall m s, R m s -> st m = beforeDoctypeNameState -> wk m = true -> plain m = true -> simok s (step_beforeDoctypeNameState m).
 Proof. sim_state step_beforeDoctypeNameState. Qed.
 
-Lemma sim_betweenDoctypePublicAndSystemIdentifiersState : forall m s, R m s -> st m = betweenDoctypePublicAndSystemIdentifiersState -> wk m = true -> covered m = true -> simok s (step_betweenDoctypePublicAndSystemIdentifiersState m).
+Lemma sim_betweenDoctypePublicAndSystemIdentifiersState : forall m s, R m s -> st m = betweenDoctypePublicAndSystemIdentifiersState -> wk m = true -> plain m = true -> simok s (step_betweenDoctypePublicAndSystemIdentifiersState m).
 Proof. sim_state step_betweenDoctypePublicAndSystemIdentifiersState. Qed.
 
-Lemma sim_closeTagOpenState : forall m s, R m s -> st m = closeTagOpenState -> wk m = true -> covered m = true -> simok s (step_closeTagOpenState m).
+Lemma sim_closeTagOpenState : forall m s, R m s -> st m = closeTagOpenState -> wk m = true -> plain m = true -> simok s (step_closeTagOpenState m).
 Proof. sim_state step_closeTagOpenState. Qed.
 
-Lemma sim_doctypePublicIdentifierDoubleQuotedState : forall m s, R m s -> st m = doctypePublicIdentifierDoubleQuotedState -> wk m = true -> covered m = true -> simok s (step_doctypePublicIdentifierDoubleQuotedState m).
+Lemma sim_doctypePublicIdentifierDoubleQuotedState : forall m s, R m s -> st m = doctypePublicIdentifierDoubleQuotedState -> wk m = true -> plain m = true -> simok s (step_doctypePublicIdentifierDoubleQuotedState m).
 Proof. sim_state step_doctypePublicIdentifierDoubleQuotedState. Qed.
 
-Lemma sim_rcdataState : forall m s, R m s -> st m = rcdataState -> wk m = true -> covered m = true -> simok s (step_rcdataState m).
+Lemma sim_rcdataState : forall m s, R m s -> st m = rcdataState -> wk m = true -> plain m = true -> simok s (step_rcdataState m).
 Proof. sim_state step_rcdataState. all: (batch_goal batch_emit). Qed.
 
-Lemma sim_scriptDataDoubleEscapedLessThanSignState : forall m s, R m s -> st m = scriptDataDoubleEscapedLessThanSignState -> wk m = true -> covered m = true -> simok s (step_scriptDataDoubleEscapedLessThanSignState m).
+Lemma sim_scriptDataDoubleEscapedLessThanSignState : forall m s, R m s -> st m = scriptDataDoubleEscapedLessThanSignState -> wk m = true -> plain m = true -> simok s (step_scriptDataDoubleEscapedLessThanSignState m).
 Proof. sim_state step_scriptDataDoubleEscapedLessThanSignState. Qed.
 
-Lemma sim_scriptDataEscapedLessThanSignState : forall m s, R m s -> st m = scriptDataEscapedLessThanSignState -> wk m = true -> covered m = true -> simok s (step_scriptDataEscapedLessThanSignState m).
+Lemma sim_scriptDataEscapedLessThanSignState : forall m s, R m s -> st m = scriptDataEscapedLessThanSignState -> wk m = true -> plain m = true -> simok s (step_scriptDataEscapedLessThanSignState m).
 Proof. sim_state step_scriptDataEscapedLessThanSignState. Qed.
 
